@@ -6,7 +6,7 @@ from .. import engineb as eb
 from ..runner import jdump
 from . import c03
 
-RUNS = {"quick": 800, "thorough": 20000}
+RUNS = {"quick": 800, "thorough": 15000}
 DUP = {"quick": 32, "thorough": 256}
 WALL = {"quick": 1500, "thorough": 6 * 3600}
 RUN_TIMEOUT = {"quick": 600, "thorough": 900}
